@@ -90,6 +90,54 @@ def readExactEv : Nat → List Ev → Option (Bytes × List Ev)
       | some (bs, s) => some (c ++ bs, s)
     else some (c.take (n + 1), .data (c.drop (n + 1)) :: cs)
 
+/-! #### Compiled form of `readExactEv`
+
+`c.length ≤ n + 1` walks the whole segment although the answer is known after `n + 2` cells: with a
+client script of 200 000 frames delivered as ONE segment every two-byte header read would cost the
+length of what is left of the stream. The definition above stays what the theorems are about; the
+compiler is given the equal function below (`@[csimp]`, proved, no axiom). -/
+
+/-- `c.length ≤ n`, looking at no more than `n + 1` cells. -/
+def lenLe {α : Type} : List α → Nat → Bool
+  | [], _ => true
+  | _ :: _, 0 => false
+  | _ :: t, n + 1 => lenLe t n
+
+theorem lenLe_eq {α : Type} (c : List α) (n : Nat) : lenLe c n = decide (c.length ≤ n) := by
+  induction c generalizing n with
+  | nil => simp [lenLe]
+  | cons a t ih =>
+    cases n with
+    | zero => simp [lenLe]
+    | succ n => simp [lenLe, ih]
+
+def readExactEvFast : Nat → List Ev → Option (Bytes × List Ev)
+  | 0, s => some ([], s)
+  | _ + 1, [] => none
+  | n + 1, .notYet :: s => readExactEvFast (n + 1) s
+  | n + 1, .data c :: cs =>
+    if c.isEmpty then none
+    else if lenLe c (n + 1) then
+      match readExactEvFast (n + 1 - c.length) cs with
+      | none => none
+      | some (bs, s) => some (c ++ bs, s)
+    else some (c.take (n + 1), .data (c.drop (n + 1)) :: cs)
+
+@[csimp] theorem readExactEv_eq_fast : @readExactEv = @readExactEvFast := by
+  funext n s
+  induction s generalizing n with
+  | nil => cases n <;> simp [readExactEv, readExactEvFast]
+  | cons e s ih =>
+    cases n with
+    | zero => simp [readExactEv, readExactEvFast]
+    | succ n =>
+      cases e with
+      | notYet => simp [readExactEv, readExactEvFast, ih]
+      | data c =>
+        cases c with
+        | nil => simp [readExactEv, readExactEvFast]
+        | cons a t => simp [readExactEv, readExactEvFast, lenLe_eq, ih]
+
 /-- `Frame::from_stream(&mut stream.stream)` in blocking mode. -/
 def readFrame (s : List Ev) : Except WsErr (Frame × List Ev) := (decodeWith readExactEv s).result
 
@@ -218,6 +266,167 @@ def recvLoopNb : Nat → Conn → List Frame → Bool → Result × Conn
           | .done r c => (r, c)
           | .next c frames => recvLoopNb fuel c frames false
     else (assemble frames, c)
+
+/-! #### Compiled form of the two receive loops
+
+`Conn.write` appends to the END of `outbound` and the loops append to the END of `frames` (and look at
+its last element), so a run of `n` Pings answered inside one call, or a message of `n` fragments,
+costs `n²/2` list cells. The compiler is given loops that keep both lists reversed while they run
+(`@[csimp]`, proved equal below, no axiom); the definitions above stay what the theorems are about. -/
+
+/-- The same connection with the outbound log reversed. -/
+def Conn.rev (c : Conn) : Conn := { c with outbound := c.outbound.reverse }
+
+def Step.rev : Step → Step
+  | .done r c => .done r c.rev
+  | .next c frames => .next c.rev frames.reverse
+
+/-- `wantMore` on the fragments kept newest-first. -/
+def wantMoreRev (frames : List Frame) : Bool :=
+  match frames.head? with
+  | some f => !f.fin
+  | none => true
+
+theorem wantMoreRev_reverse (frames : List Frame) : wantMoreRev frames.reverse = wantMore frames := by
+  simp [wantMoreRev, wantMore, List.head?_reverse]
+
+/-- `onFrame` on a connection whose log, and a fragment list that, are kept newest-first. -/
+def onFrameRev (c : Conn) (frames : List Frame) (f : Frame) : Step :=
+  if f.opcode = .ping then
+    .next { c with outbound := encodeFrame (Frame.new .pong f.payload) :: c.outbound } frames
+  else if f.opcode = .pong then .next { c with pongs := c.pongs + 1 } frames
+  else if f.opcode = .close then
+    .done (.err .connectionClosed)
+      { c with outbound := encodeFrame (Frame.new .close f.payload) :: c.outbound }
+  else .next c (f :: frames)
+
+theorem onFrameRev_rev (c : Conn) (frames : List Frame) (f : Frame) :
+    onFrameRev c.rev frames.reverse f = (onFrame c frames f).rev := by
+  unfold onFrameRev onFrame
+  split
+  · simp [Step.rev, Conn.rev, Conn.write]
+  · split
+    · simp [Step.rev, Conn.rev]
+    · split
+      · simp [Step.rev, Conn.rev, Conn.write]
+      · simp [Step.rev]
+
+theorem Conn.rev_rev (c : Conn) : c.rev.rev = c := by
+  simp [Conn.rev]
+
+def recvLoopRev : Nat → Conn → List Frame → Result × Conn
+  | 0, c, _ => (.outOfFuel, c)
+  | fuel + 1, c, frames =>
+    if wantMoreRev frames then
+      match readFrame c.inbound with
+      | .error e => (.err (.ofWs e), { c with inbound := afterError c.inbound e })
+      | .ok (f, s) =>
+        match onFrameRev { c with inbound := s } frames f with
+        | .done r c => (r, c)
+        | .next c frames => recvLoopRev fuel c frames
+    else (assemble frames.reverse, c)
+
+theorem recvLoopRev_rev (fuel : Nat) (c : Conn) (frames : List Frame) :
+    recvLoopRev fuel c.rev frames.reverse
+      = ((recvLoop fuel c frames).1, (recvLoop fuel c frames).2.rev) := by
+  induction fuel generalizing c frames with
+  | zero => simp [recvLoopRev, recvLoop]
+  | succ fuel ih =>
+    unfold recvLoopRev recvLoop
+    rw [wantMoreRev_reverse]
+    split
+    · have hin : c.rev.inbound = c.inbound := rfl
+      rw [hin]
+      cases hr : readFrame c.inbound with
+      | error e => simp [Conn.rev]
+      | ok p =>
+        obtain ⟨f, s⟩ := p
+        have h1 : ({ c.rev with inbound := s } : Conn) = ({ c with inbound := s } : Conn).rev := rfl
+        simp only [h1, onFrameRev_rev]
+        cases ho : onFrame { c with inbound := s } frames f with
+        | done r c' => simp [Step.rev]
+        | next c' frames' => simp [Step.rev, ih]
+    · simp
+
+def recvLoopFast (fuel : Nat) (c : Conn) (frames : List Frame) : Result × Conn :=
+  let p := recvLoopRev fuel c.rev frames.reverse
+  (p.1, p.2.rev)
+
+@[csimp] theorem recvLoop_eq_fast : @recvLoop = @recvLoopFast := by
+  funext fuel c frames
+  simp [recvLoopFast, recvLoopRev_rev, Conn.rev_rev]
+
+def recvLoopNbRev : Nat → Conn → List Frame → Bool → Result × Conn
+  | 0, c, _, _ => (.outOfFuel, c)
+  | fuel + 1, c, frames, isFirst =>
+    if wantMoreRev frames then
+      if isFirst then
+        match nbHeader c.inbound with
+        | .nothing s => (.none, { c with inbound := s })
+        | .failed => (.err .readError, { c with inbound := [] })
+        | .header h0 h1 s =>
+          match (innerWith readExactEv s h0 h1).result with
+          | .error e =>
+            (.err (.ofWs e), { c with inbound := match e with | .readError => [] | .invalidOpcode => s })
+          | .ok (f, s) =>
+            match onFrameRev { c with inbound := s } frames f with
+            | .done r c => (r, c)
+            | .next c frames' =>
+              recvLoopNbRev fuel c frames' (f.opcode = .ping || f.opcode = .pong)
+      else
+        match readFrame c.inbound with
+        | .error e => (.err (.ofWs e), { c with inbound := afterError c.inbound e })
+        | .ok (f, s) =>
+          match onFrameRev { c with inbound := s } frames f with
+          | .done r c => (r, c)
+          | .next c frames => recvLoopNbRev fuel c frames false
+    else (assemble frames.reverse, c)
+
+theorem recvLoopNbRev_rev (fuel : Nat) (c : Conn) (frames : List Frame) (isFirst : Bool) :
+    recvLoopNbRev fuel c.rev frames.reverse isFirst
+      = ((recvLoopNb fuel c frames isFirst).1, (recvLoopNb fuel c frames isFirst).2.rev) := by
+  induction fuel generalizing c frames isFirst with
+  | zero => simp [recvLoopNbRev, recvLoopNb]
+  | succ fuel ih =>
+    unfold recvLoopNbRev recvLoopNb
+    rw [wantMoreRev_reverse]
+    have hin : c.rev.inbound = c.inbound := rfl
+    have h1 : ∀ s, ({ c.rev with inbound := s } : Conn) = ({ c with inbound := s } : Conn).rev :=
+      fun _ => rfl
+    split
+    · split
+      · rw [hin]
+        cases hn : nbHeader c.inbound with
+        | nothing s => simp [Conn.rev]
+        | failed => simp [Conn.rev]
+        | header h0 h1' s =>
+          simp only []
+          cases hr : (innerWith readExactEv s h0 h1').result with
+          | error e => simp [Conn.rev]
+          | ok p =>
+            obtain ⟨f, s'⟩ := p
+            simp only [h1, onFrameRev_rev]
+            cases ho : onFrame { c with inbound := s' } frames f with
+            | done r c' => simp [Step.rev]
+            | next c' frames' => simp [Step.rev, ih]
+      · rw [hin]
+        cases hr : readFrame c.inbound with
+        | error e => simp [Conn.rev]
+        | ok p =>
+          obtain ⟨f, s⟩ := p
+          simp only [h1, onFrameRev_rev]
+          cases ho : onFrame { c with inbound := s } frames f with
+          | done r c' => simp [Step.rev]
+          | next c' frames' => simp [Step.rev, ih]
+    · simp
+
+def recvLoopNbFast (fuel : Nat) (c : Conn) (frames : List Frame) (isFirst : Bool) : Result × Conn :=
+  let p := recvLoopNbRev fuel c.rev frames.reverse isFirst
+  (p.1, p.2.rev)
+
+@[csimp] theorem recvLoopNb_eq_fast : @recvLoopNb = @recvLoopNbFast := by
+  funext fuel c frames isFirst
+  simp [recvLoopNbFast, recvLoopNbRev_rev, Conn.rev_rev]
 
 /-- Bytes and events still in the script (an upper bound for the number of loop iterations). -/
 def evSize : List Ev → Nat
